@@ -67,6 +67,9 @@ type Dialer struct {
 }
 
 func (d *Dialer) Dial(ctx context.Context, endpoint string) (*Conn, error) {
+	if simEnabled() {
+		return simDial(ctx, d, endpoint)
+	}
 	debug.Printf("uacp: connecting to %s", endpoint)
 
 	_, raddr, err := ResolveEndpoint(ctx, endpoint)
@@ -108,6 +111,7 @@ func Dial(ctx context.Context, endpoint string) (*Conn, error) {
 
 // Listener is a OPC UA Connection Protocol network listener.
 type Listener struct {
+	simListenerHook
 	l        *net.TCPListener
 	ack      *Acknowledge
 	endpoint string
@@ -121,6 +125,9 @@ type Listener struct {
 // on all available unicast and anycast IP addresses of the local system.
 // If the Port field of laddr is 0, a port number is automatically chosen.
 func Listen(ctx context.Context, endpoint string, ack *Acknowledge) (*Listener, error) {
+	if simEnabled() {
+		return simListen(ctx, endpoint, ack)
+	}
 	if ack == nil {
 		ack = DefaultServerACK
 	}
@@ -146,6 +153,9 @@ func Listen(ctx context.Context, endpoint string, ack *Acknowledge) (*Listener, 
 // The first param ctx is to be passed to monitor(), which monitors and handles
 // incoming messages automatically in another goroutine.
 func (l *Listener) Accept(ctx context.Context) (*Conn, error) {
+	if l.isSim() {
+		return l.simAccept()
+	}
 	c, err := l.l.AcceptTCP()
 	if err != nil {
 		return nil, err
@@ -160,11 +170,17 @@ func (l *Listener) Accept(ctx context.Context) (*Conn, error) {
 
 // Close closes the Listener.
 func (l *Listener) Close() error {
+	if l.isSim() {
+		return l.simClose()
+	}
 	return l.l.Close()
 }
 
 // Addr returns the listener's network address.
 func (l *Listener) Addr() net.Addr {
+	if l.isSim() {
+		return l.simAddr()
+	}
 	return l.l.Addr()
 }
 
@@ -174,6 +190,7 @@ func (l *Listener) Endpoint() string {
 }
 
 type Conn struct {
+	simConnHook
 	*net.TCPConn
 	id  uint32
 	ack *Acknowledge
@@ -219,6 +236,9 @@ func (c *Conn) Close() (err error) {
 
 func (c *Conn) close() error {
 	debug.Printf("uacp %d: close", c.id)
+	if c.isSim() {
+		return c.simClose()
+	}
 	return c.TCPConn.Close()
 }
 
